@@ -95,6 +95,113 @@ Proof.
 Qed.
 End AllocInit.
 
+
+(* ---------------------------------------------------------------- NULL pointers, fmin / fmax, add_frequency, rejected init *)
+Ltac null_fin :=
+  cbn; repeat (match goal with |- context [if ?b then _ else _] => destruct b end; cbn);
+  let H := fresh in intros H; try discriminate H; first [left; reflexivity|right; reflexivity].
+
+Section More.
+Variable V : Type.
+Variables vzero vdef : V.
+Notation Inv := (Inv V vzero vdef).
+Notation stepf := (step V vzero vdef fixed).
+Notation abs := (ArraySpec.abs V).
+Notation spec_step := (ArraySpec.spec_step V vzero vdef).
+
+(* a pointer getter answers NULL with success only when the vector it points to is empty *)
+Theorem null_pointer_only_when_empty d o :
+  Inv d -> ptr_null V d o = true -> o_ret V (snd (stepf d o)) = ROk ->
+  o_pay V (snd (stepf d o)) = PVals V [] \/ o_pay V (snd (stepf d o)) = PFreqs [].
+Proof.
+  intros (I1 & I2 & I3 & _) N.
+  destruct o; cbn [ptr_null] in N; try discriminate N; apply Nat.eqb_eq in N; cbn [step].
+  - unfold get_frequency_vector. assert (E : freqs V d = 0) by lia. rewrite E. null_fin.
+  - unfold get_matrix. assert (E : cells V d = 0) by lia. rewrite E. null_fin.
+  - unfold get_z0_vector. assert (E : ports V d = 0) by lia. rewrite E. null_fin.
+  - unfold get_fz0_vector. assert (E : ports V d = 0) by lia. rewrite E. null_fin.
+Qed.
+
+(* fmin / fmax: first and last element; the lowest and highest when the frequencies ascend ... *)
+Theorem fmin_fmax_lowest_highest_when_ascending (a : arr V) x :
+  ascending V a ->
+  (snd (spec_step a (OGetFmin V)) = okp V (PFreq x) -> is_lowest V a x) /\
+  (snd (spec_step a (OGetFmax V)) = okp V (PFreq x) -> is_highest V a x).
+Proof.
+  intros A. cbn [spec_step]. destruct (Nat.eqb_spec (a_freqs V a) 0) as [E|E].
+  - split; intros H; discriminate H.
+  - split; intros H; cbn in H; injection H as <-.
+    + split; [exists 0; split; [lia|reflexivity]|]. intros i Hi. apply A; lia.
+    + split; [exists (a_freqs V a - 1); split; [lia|reflexivity]|]. intros i Hi. apply A; lia.
+Qed.
+
+(* ... and not otherwise: after vnadata_set_frequency_vector {3, 1, 2} on an object with three
+   frequencies fmin is 3 and fmax is 2 (model and abstract array agree with the library; the
+   wording of the manual does not) *)
+Definition unordered_history : list (op V) := [OResize V 0 0 0 3; OSetFreqVec V [3; 1; 2]%Z].
+
+Theorem fmin_fmax_lowest_highest_refuted_unordered :
+  let d := run V vzero vdef fixed (vd_alloc V vzero vdef) unordered_history in
+  snd (stepf d (OGetFmin V)) = okp V (PFreq 3%Z) /\ snd (stepf d (OGetFmax V)) = okp V (PFreq 2%Z) /\
+  snd (spec_step (abs d) (OGetFmin V)) = okp V (PFreq 3%Z) /\ snd (spec_step (abs d) (OGetFmax V)) = okp V (PFreq 2%Z) /\
+  ~ is_lowest V (abs d) 3%Z /\ ~ is_highest V (abs d) 2%Z.
+Proof.
+  cbv zeta. repeat split; try (vm_compute; reflexivity).
+  - intros [_ H]. specialize (H 1). vm_compute in H. apply H; [repeat constructor|reflexivity].
+  - intros [_ H]. specialize (H 0). vm_compute in H. apply H; [repeat constructor|reflexivity].
+Qed.
+
+(* vnadata_add_frequency presents the new frequency row with its initial values: every cell 0 and,
+   in per-frequency mode, every impedance 50 ohm (the clause of the property about newly exposed
+   cells, for the operation that grows the frequency dimension by one) *)
+Theorem add_frequency_exposes_initial d x :
+  Inv d -> o_ret V (snd (stepf d (OAddFreq V x))) = ROk ->
+  let d' := fst (stepf d (OAddFreq V x)) in
+  freqs V d' = freqs V d + 1 /\ fv V d' (freqs V d) = x /\
+  (forall j, dat V d' (freqs V d) j = vzero) /\
+  (per_f V d' = true -> forall p, z0vv V d' (freqs V d) p = vdef) /\
+  (rows V d', cols V d', ty V d', per_f V d') = (rows V d, cols V d, ty V d, per_f V d).
+Proof.
+  intros (I1 & I2 & I3 & (Kfv & Kdat & Kz0 & Kfz0) & _). cbn [step]. unfold add_frequency.
+  destruct (x <? 0)%Z; [intros H; discriminate H|].
+  destruct (Nat.ltb (f_alloc V d) (freqs V d + 1)) eqn:G.
+  - unfold extend_f.
+    destruct (Nat.ltb (f_alloc V d) (Nat.max 50 (f_alloc V d + f_alloc V d / 2))) eqn:G2.
+    2:{ apply Nat.ltb_ge in G2. apply Nat.ltb_lt in G.
+        pose proof (Nat.le_max_l 50 (f_alloc V d + f_alloc V d / 2)). pose proof (Nat.le_max_r 50 (f_alloc V d + f_alloc V d / 2)).
+        pose proof (Nat.div_mod (f_alloc V d) 2). pose proof (Nat.mod_upper_bound (f_alloc V d) 2). lia. }
+    destruct (per_f V d) eqn:P; cbn -[Nat.max Nat.div Nat.ltb within];
+      (destruct (Nat.ltb (freqs V d) (Nat.max 50 (f_alloc V d + f_alloc V d / 2))) eqn:G3;
+       [|intros H; discriminate H]); intros _; cbn -[Nat.max Nat.div Nat.ltb within];
+      rewrite ?P; unfold upd1; rewrite Nat.eqb_refl; repeat split; auto; intros.
+    all: try discriminate.
+    all: destruct (within _ _ _ && Nat.ltb _ _); [reflexivity|];
+      first [apply Kdat; left; lia | apply Kfz0; [reflexivity|left; lia]].
+  - destruct (Nat.ltb (freqs V d) (f_alloc V d)) eqn:G3; [|intros H; discriminate H]. intros _.
+    cbn. unfold upd1. rewrite Nat.eqb_refl. repeat split; auto; intros.
+    all: first [apply Kdat; left; lia | apply Kfz0; [assumption|left; lia]].
+Qed.
+
+(* a refused vnadata_init is NOT without effect: the object has been emptied before the new shape
+   is validated (vnadata_init = resize to nothing, impedances back to default, resize); a refused
+   vnadata_resize leaves the object alone (c15_resize_rejected_unchanged) *)
+Theorem init_rejected_is_empty d tz r c f :
+  Inv d -> resize_cond tz r c f = None ->
+  let res := stepf d (OInit V tz r c f) in
+  snd res = fail V /\
+  (ty V (fst res), rows V (fst res), cols V (fst res), freqs V (fst res), per_f V (fst res)) = (VUNDEF, 0, 0, 0, false).
+Proof.
+  intros HI E. cbv zeta.
+  destruct (sim_step V vzero vdef d (abs d) (OInit V tz r c f) HI (refines_refl V d)) as [S R].
+  cbn [spec_step] in S, R. unfold spec_init, spec_resize_op in S, R. rewrite E in S, R.
+  cbn [snd fst sfail] in S, R. split; [exact S|].
+  destruct R as (E1 & E2 & E3 & E4 & E5 & _).
+  cbn [ArraySpec.abs a_ty a_rows a_cols a_freqs a_perf] in E1, E2, E3, E4, E5.
+  rewrite E1, E2, E3, E4, E5. reflexivity.
+Qed.
+
+End More.
+
 (* ---------------------------------------------------------------- the format *)
 Section Format.
 Variable tok : Type.
